@@ -41,6 +41,8 @@ type Ctx struct {
 	parents map[ast.Node]ast.Node // lazily built per file
 
 	reachCache map[string]map[*ssa.Function]bool
+	cens       *census
+	entr       *entrySets
 }
 
 // InfraError is an infrastructure failure (exit 2): no verdict possible.
@@ -360,7 +362,11 @@ type entrySets struct {
 }
 
 func (c *Ctx) entries() *entrySets {
+	if c.entr != nil {
+		return c.entr
+	}
 	es := &entrySets{}
+	c.entr = es
 	ctorNames := map[string]bool{"New": true, "Load": true}
 	scope := c.Root.Types.Scope()
 	for _, name := range scope.Names() {
